@@ -18,6 +18,299 @@ variable {co : CryptoOps} {env : Env} {c : Cls} {cfg : Cfg} {signer : Signer}
 def bodyOf (c : Cls) (cfg : Cfg) (e : Bytes) : Bytes :=
   if c.has .Mbi_MixinHmac then e.take hmacOffset ++ e.drop (hmacOffset + hmacSize + (cfg.keyStore.getD []).length) else e
 
+namespace RomV1
+open SignedV1
+
+/-! ### the image as header ++ inserted block ++ rest -/
+
+theorem spec_rd32 (b : Bytes) (off : Nat) : Spec.MbiRom.rd32 b off = rd32 b off := rfl
+theorem spec_sub (b : Bytes) (i j : Nat) : Spec.MbiRom.sub b i j = slice b i j := rfl
+
+/-- everything behind the inserted block -/
+def restOf (c : Cls) (cfg : Cfg) (sig : Bytes) : Bytes :=
+  (ivtApp c cfg).drop hmacOffset ++ relocBlk cfg ++ certInImage c cfg ++ cfg.tz.bytes ++ sig
+
+theorem img_parts (co : CryptoOps) (c : Cls) (cfg : Cfg) (sig : Bytes) :
+    imgOf co c cfg sig = (ivtApp c cfg).take hmacOffset ++ insOf co c cfg ++ restOf c cfg sig := rfl
+
+theorem head_rest (c : Cls) (cfg : Cfg) (sig : Bytes) :
+    (ivtApp c cfg).take hmacOffset ++ restOf c cfg sig = rawOf c cfg ++ sig := by
+  simp only [restOf, rawOf, List.append_assoc]
+  rw [← List.append_assoc, List.take_append_drop]
+
+theorem head_length (k : ClsF c) (g : CfgF c cfg) (hH : c.has .Mbi_MixinHmac = true) :
+    ((ivtApp c cfg).take hmacOffset).length = hmacOffset := by
+  have := g.hAppH hH
+  rw [List.length_take, ivtApp_length k g]; omega
+
+theorem ins_length (hl : CryptoLaws co) (g : CfgF c cfg) (hH : c.has .Mbi_MixinHmac = true) :
+    (insOf co c cfg).length = hmacSize + (cfg.keyStore.getD []).length := by
+  rw [insOf_length hl g, shift, hH]; rfl
+
+theorem img_take (_hl : CryptoLaws co) (k : ClsF c) (g : CfgF c cfg) (sig : Bytes) (hH : c.has .Mbi_MixinHmac = true) :
+    (imgOf co c cfg sig).take hmacOffset = (ivtApp c cfg).take hmacOffset := by
+  rw [img_parts, List.append_assoc]
+  exact List.take_left' (head_length k g hH)
+
+theorem img_drop_ins (hl : CryptoLaws co) (k : ClsF c) (g : CfgF c cfg) (sig : Bytes) (hH : c.has .Mbi_MixinHmac = true) :
+    (imgOf co c cfg sig).drop (hmacOffset + hmacSize + (cfg.keyStore.getD []).length) = restOf c cfg sig := by
+  rw [img_parts]
+  apply List.drop_left'
+  rw [List.length_append, head_length k g hH, ins_length hl g hH]; omega
+
+theorem body_eq (hl : CryptoLaws co) (k : ClsF c) (g : CfgF c cfg) (sig : Bytes) :
+    Mbi.bodyOf c cfg (imgOf co c cfg sig) = rawOf c cfg ++ sig := by
+  unfold Mbi.bodyOf
+  cases hH : c.has .Mbi_MixinHmac with
+  | false =>
+    simp only [Bool.false_eq_true, if_false, img_parts, insOf, hH, List.append_nil]
+    exact head_rest c cfg sig
+  | true =>
+    simp only [if_true, img_take hl k g sig hH, img_drop_ins hl k g sig hH]
+    exact head_rest c cfg sig
+
+/-! ### the signed range -/
+
+theorem raw_length (k : ClsF c) (g : CfgF c cfg) : (rawOf c cfg).length = (totalLenForCertBlock c cfg).toNat := by
+  rw [legacyLen_nat cfg k, Int.toNat_natCast]
+  simp only [rawOf, List.length_append, certInImage_length k g, appLen_blocks k g]
+
+theorem il_bound (k : ClsF c) (g : CfgF c cfg) : (totalLenForCertBlock c cfg).toNat < 2 ^ 32 := by
+  have := total_bound k g
+  rw [totalLen_nat k g] at this
+  rw [legacyLen_nat cfg k]
+  omega
+
+theorem raw_cert (k : ClsF c) (g : CfgF c cfg) (sig : Bytes) :
+    slice (rawOf c cfg ++ sig) (appLen c cfg) (appLen c cfg + cfg.cert.length) = certInImage c cfg := by
+  have e : rawOf c cfg ++ sig = (ivtApp c cfg ++ relocBlk cfg) ++ certInImage c cfg ++ (cfg.tz.bytes ++ sig) := by
+    simp only [rawOf, List.append_assoc]
+  rw [e, appLen_blocks k g, ← List.length_append, ← certInImage_length k g]
+  exact slice_append_mid _ _ _
+
+theorem cert_il (k : ClsF c) (g : CfgF c cfg) :
+    rd32 (certInImage c cfg) certImageLengthOffset = (totalLenForCertBlock c cfg).toNat := by
+  have h := g.hCertLen
+  simp only [certHeaderSize] at h
+  have e : certInImage c cfg = cfg.cert.take 20 ++ le32 (totalLenForCertBlock c cfg).toNat ++ cfg.cert.drop 24 := by
+    rw [certInImage_eq cfg k]
+    simp only [certSetImageLength, setAt, certImageLengthOffset, le32_length]
+  exact rd32_at _ _ _ _ _ e (by rw [List.length_take, certImageLengthOffset]; omega) (il_bound k g)
+
+/-! ### the HMAC block -/
+
+theorem derivation_const : Spec.MbiRom.hmacKeyDerivation = deriveHmacKeyConst := by decide
+
+/-- the HMAC of the header as the ROM computes it -/
+def romMac (co : CryptoOps) (c : Cls) (cfg : Cfg) (key : Bytes) : Bytes :=
+  hmac co .sha256 (ecbEnc co key Spec.MbiRom.hmacKeyDerivation) ((ivtApp c cfg).take hmacOffset)
+
+theorem hmacKey_some (g : CfgF c cfg) (hH : c.has .Mbi_MixinHmac = true) :
+    ∃ key, cfg.hmacKey = some key ∧ key.length = hmacKeyLength := by
+  cases hk : cfg.hmacKey with
+  | none => have := g.hHkN hk; rw [hH] at this; cases this
+  | some key => exact ⟨key, rfl, (g.hHk key hk).1⟩
+
+theorem ins_eq (co : CryptoOps) (hH : c.has .Mbi_MixinHmac = true) (key : Bytes) (hk : cfg.hmacKey = some key) :
+    insOf co c cfg = romMac co c cfg key ++ cfg.keyStore.getD [] := by
+  simp only [insOf, hH, if_true, computeHmac, hk, deriveHmacKey, romMac, derivation_const]
+
+theorem romMac_length (hl : CryptoLaws co) (key : Bytes) : (romMac co c cfg key).length = hmacSize := by
+  rw [romMac, hmac_length hl]; rfl
+
+theorem img_mac (hl : CryptoLaws co) (k : ClsF c) (g : CfgF c cfg) (sig : Bytes) (hH : c.has .Mbi_MixinHmac = true)
+    (key : Bytes) (hk : cfg.hmacKey = some key) :
+    slice (imgOf co c cfg sig) hmacOffset (hmacOffset + hmacSize) = romMac co c cfg key := by
+  have e : imgOf co c cfg sig = (ivtApp c cfg).take hmacOffset ++ romMac co c cfg key
+      ++ (cfg.keyStore.getD [] ++ restOf c cfg sig) := by
+    rw [img_parts, ins_eq co hH key hk]; simp only [List.append_assoc]
+  rw [e]
+  have := slice_append_mid ((ivtApp c cfg).take hmacOffset) (romMac co c cfg key) (cfg.keyStore.getD [] ++ restOf c cfg sig)
+  rwa [head_length k g hH, romMac_length hl] at this
+
+theorem img_keyStore (hl : CryptoLaws co) (k : ClsF c) (g : CfgF c cfg) (sig : Bytes) (hH : c.has .Mbi_MixinHmac = true)
+    (key : Bytes) (hk : cfg.hmacKey = some key) :
+    slice (imgOf co c cfg sig) (hmacOffset + hmacSize) (hmacOffset + hmacSize + (cfg.keyStore.getD []).length)
+      = cfg.keyStore.getD [] := by
+  have e : imgOf co c cfg sig = ((ivtApp c cfg).take hmacOffset ++ romMac co c cfg key)
+      ++ cfg.keyStore.getD [] ++ restOf c cfg sig := by
+    rw [img_parts, ins_eq co hH key hk]; simp only [List.append_assoc]
+  rw [e]
+  have := slice_append_mid ((ivtApp c cfg).take hmacOffset ++ romMac co c cfg key) (cfg.keyStore.getD [])
+    (restOf c cfg sig)
+  rwa [List.length_append, head_length k g hH, romMac_length hl] at this
+
+/-! ### the ROM's checks -/
+
+theorem need_ok {b : Bool} {w : String} (h : b = true) : Spec.MbiRom.need b w = .ok () := by
+  simp [Spec.MbiRom.need, h]
+
+theorem relocImages_mod4 (es : List RelocEntry) : (relocImages es).length % 4 = 0 := by
+  induction es with
+  | nil => rfl
+  | cons e es ih =>
+    have := align4_length_mod e.image
+    rw [relocImages_cons, List.length_append]; omega
+
+theorem appLen_mod4 (k : ClsF c) (cfg : Cfg) : appLen c cfg % 4 = 0 := by
+  rw [appLen_eq cfg k]
+  have h1 : (appData cfg).length % 4 = 0 := align4_length_mod _
+  have h2 : relocLen c cfg % 4 = 0 := by
+    unfold relocLen
+    cases cfg.reloc with
+    | none => rfl
+    | some es => have := relocImages_mod4 es; simp only [relocExport_length]; omega
+  split <;> omega
+
+theorem appLen_ge (k : ClsF c) (g : CfgF c cfg) : minIvtSize ≤ appLen c cfg := by
+  have := app_ge k g.hval
+  rw [appLen_eq cfg k]; omega
+
+theorem body_word (k : ClsF c) (g : CfgF c cfg) (sig : Bytes) :
+    rd32 (rawOf c cfg ++ sig) ivtCrcCertificateOffset = appLen c cfg := by
+  have hge := app_ge k g.hval
+  simp only [minIvtSize] at hge
+  rw [rd32_append_left _ _ _ (by
+    simp only [rawOf, List.length_append, ivtApp_length k g, ivtCrcCertificateOffset]; omega),
+    rawOf_word k g _ (by decide)]
+  exact (ivtApp_words k g).2.2.1
+
+theorem romSignedV1_ok (k : ClsF c) (g : CfgF c cfg) (sig : Bytes) (hs : sig.length = cfg.sigLen)
+    (renv : Spec.MbiRom.RomEnv) (certs : List (Nat × Nat)) (table : List Bytes)
+    (hrom : RomCertV1OK co renv cfg.cert certs table) (stripped : Nat) :
+    ∃ a last, Spec.MbiRom.romSignedV1 co renv (rawOf c cfg ++ sig) stripped = .ok a
+      ∧ (certs.map (fun p => (appLen c cfg + p.1, p.2))).getLast? = some last
+      ∧ a.obligations = [.x509Chain (certs.map (fun p => (appLen c cfg + p.1, p.2))) table,
+                         .rsaByCert last (totalLenForCertBlock c cfg).toNat]
+      ∧ a.stripped = stripped := by
+  obtain ⟨hne, hwalk⟩ := hrom
+  have hat : certAt (rawOf c cfg ++ sig) (certSetImageLength cfg.cert (totalLenForCertBlock c cfg).toNat) (appLen c cfg) := by
+    unfold certAt
+    rw [spec_sub, ← certInImage_eq cfg k, certInImage_length k g]
+    exact raw_cert k g sig
+  obtain ⟨ci, h1, h2, h3, h4, h5⟩ := hwalk _ _ _ hat (il_bound k g)
+  have hmapne : certs.map (fun p => (appLen c cfg + p.1, p.2)) ≠ [] := by
+    intro h; exact hne (List.map_eq_nil_iff.1 h)
+  obtain ⟨last, hlast⟩ : ∃ last, (certs.map (fun p => (appLen c cfg + p.1, p.2))).getLast? = some last := by
+    cases hl : (certs.map (fun p => (appLen c cfg + p.1, p.2))).getLast? with
+    | none => exact absurd (List.getLast?_eq_none_iff.1 hl) hmapne
+    | some last => exact ⟨last, rfl⟩
+  have hw : Spec.MbiRom.rd32 (rawOf c cfg ++ sig) Spec.MbiRom.offCrcOrCert = appLen c cfg := body_word k g sig
+  have c1 : decide (appLen c cfg ≥ Spec.MbiRom.ivtSize ∧ (appLen c cfg % 4 == 0) = true) = true := by
+    have := appLen_ge k g; have := appLen_mod4 k cfg
+    simp only [minIvtSize] at *
+    simp only [Spec.MbiRom.ivtSize, decide_eq_true_eq, beq_iff_eq]; omega
+  have c2 : decide (ci.blockEnd ≤ ci.imageLength ∧ ci.imageLength < (rawOf c cfg ++ sig).length) = true := by
+    have := g.hSigLen
+    rw [h4, h5, List.length_append, raw_length k g, hs, legacyLen_nat cfg k]
+    simp only [decide_eq_true_eq]; omega
+  refine ⟨{ stripped := stripped, obligations := [.x509Chain ci.certs ci.table, .rsaByCert last ci.imageLength],
+            authenticated := [(0, (rawOf c cfg ++ sig).length + stripped)] }, last, ?_, hlast, ?_, ?_⟩
+  · unfold Spec.MbiRom.romSignedV1
+    simp only [hw, need_ok c1, h1, need_ok c2, bind, Except.bind, h2, hlast, pure, Except.pure]
+  · simp only [h2, h3, h4]
+  · rfl
+
+theorem romHmac_ok (hl : CryptoLaws co) (k : ClsF c) (g : CfgF c cfg) (sig : Bytes) (hH : c.has .Mbi_MixinHmac = true)
+    (rkth : Bytes) :
+    Spec.MbiRom.romHmac co (romEnvOf c rkth cfg.hmacKey) (imgOf co c cfg sig)
+      = .ok (rawOf c cfg ++ sig, hmacSize + (cfg.keyStore.getD []).length, cfg.keyStore.isSome) := by
+  obtain ⟨key, hk, hkl⟩ := hmacKey_some g hH
+  have hks : (Spec.MbiRom.rd32 (imgOf co c cfg sig) Spec.MbiRom.offFlags &&& Spec.MbiRom.flagKeyStore != 0)
+      = cfg.keyStore.isSome := by
+    have : Spec.MbiRom.rd32 (imgOf co c cfg sig) Spec.MbiRom.offFlags = flagsIn (imgOf co c cfg sig) := rfl
+    rw [this, img_flags co k g, ← (flags_get k g).2.2.2.1]
+    rfl
+  have hstrip : Spec.MbiRom.hmacSize + (if cfg.keyStore.isSome = true then Spec.MbiRom.keyStoreSize else 0)
+      = hmacSize + (cfg.keyStore.getD []).length := by
+    have := ksLen_eq g
+    unfold ksLen at this
+    rw [this]; rfl
+  have c1 : decide ((imgOf co c cfg sig).length ≥ Spec.MbiRom.hmacOffset + (hmacSize + (cfg.keyStore.getD []).length))
+      = true := by
+    have h2 : (appData cfg).length ≥ 64 := g.hAppH hH
+    have h3 := imgOf_length hl k g sig
+    have h4 : shift c cfg = hmacSize + (cfg.keyStore.getD []).length := by rw [shift, hH]; rfl
+    have h5 : Spec.MbiRom.hmacOffset = 64 := rfl
+    rw [appLen_eq cfg k, h4] at h3
+    rw [h3, h5, decide_eq_true_eq]; omega
+  have c2 : (key.length == Spec.MbiRom.userKeySize) = true := by
+    rw [hkl]; rfl
+  have hmac64 : Spec.MbiRom.sub (imgOf co c cfg sig) Spec.MbiRom.hmacOffset (Spec.MbiRom.hmacOffset + Spec.MbiRom.hmacSize)
+      = romMac co c cfg key := img_mac hl k g sig hH key hk
+  have htake : (imgOf co c cfg sig).take Spec.MbiRom.hmacOffset = (ivtApp c cfg).take hmacOffset :=
+    img_take hl k g sig hH
+  have hdrop : (imgOf co c cfg sig).drop (Spec.MbiRom.hmacOffset + (hmacSize + (cfg.keyStore.getD []).length))
+      = restOf c cfg sig := by
+    rw [← Nat.add_assoc]; exact img_drop_ins hl k g sig hH
+  have huk : (romEnvOf c rkth cfg.hmacKey).userKey = some key := hk
+  unfold Spec.MbiRom.romHmac
+  simp only [hks, hstrip, need_ok c1, huk, need_ok c2, hmac64, htake, hdrop, bind, Except.bind, pure, Except.pure]
+  have c3 : (romMac co c cfg key == hmac co .sha256 (ecbEnc co key Spec.MbiRom.hmacKeyDerivation)
+      ((ivtApp c cfg).take hmacOffset)) = true := by
+    simp [romMac]
+  simp only [need_ok c3, head_rest]
+
+theorem flags_type (k : ClsF c) (g : CfgF c cfg) : getImageType (flagsOf c cfg) = c.imageType := by
+  have hv : cfg.imageVersion ≤ imgVerMask := by have := g.hVer; simp only [imgVerMask]; omega
+  exact (flags_fields c.imageType cfg.tz.tag cfg.subType cfg.imageVersion
+    (match cfg.keyStore with | some b => b.length | none => 0)
+    c.hasTrustZone (c.hasAttr .image_subtype) (c.hasAttr .user_hw_key_enabled) cfg.hwKey (c.hasAttr .key_store)
+    cfg.keyStore.isSome (c.hasAttr .app_table) cfg.reloc.isSome (c.hasAttr .image_version)
+    (c.hasAttr .image_version_to_image_type) true k.hType (tag_le _) g.hSub hv).1
+
+theorem type_cases (k : ClsF c) (hf : c.family = some .signedV1) (ht : signedTypeOk c = true) :
+    c.imageType = 1 ∨ c.imageType = 4 ∨ c.imageType = 8 := by
+  unfold signedTypeOk at ht
+  rw [k.sk, hf] at ht
+  simpa [or_assoc] using ht
+
+theorem romCheck_ok (hl : CryptoLaws co) (k : ClsF c) (g : CfgF c cfg) (hf : c.family = some .signedV1)
+    (ht : signedTypeOk c = true) (sig : Bytes) (hs : sig.length = cfg.sigLen) (rkth : Bytes) :
+    Spec.MbiRom.romCheck co (romEnvOf c rkth cfg.hmacKey) (imgOf co c cfg sig)
+      = (if c.has .Mbi_MixinHmac then
+          Spec.MbiRom.romSignedV1 co (romEnvOf c rkth cfg.hmacKey) (rawOf c cfg ++ sig)
+            (hmacSize + (cfg.keyStore.getD []).length)
+         else Spec.MbiRom.romSignedV1 co (romEnvOf c rkth cfg.hmacKey) (imgOf co c cfg sig) 0) := by
+  have hfl : Spec.MbiRom.rd32 (imgOf co c cfg sig) Spec.MbiRom.offFlags = flagsOf c cfg := img_flags co k g sig
+  have hty : flagsOf c cfg &&& Spec.MbiRom.maskImageType = c.imageType := flags_type k g
+  have htz : (flagsOf c cfg >>> Spec.MbiRom.shiftTzType) &&& Spec.MbiRom.maskTzType = cfg.tz.tag := (flags_get k g).1
+  have htot : Spec.MbiRom.rd32 (imgOf co c cfg sig) Spec.MbiRom.offTotalLength
+      = (if c.zeroTotalLength then 0 else (imgOf co c cfg sig).length) := by
+    have : Spec.MbiRom.rd32 (imgOf co c cfg sig) Spec.MbiRom.offTotalLength = rd32 (imgOf co c cfg sig) ivtImageLengthOffset := rfl
+    rw [this, imgOf_head co k g _ _ (by decide), (ivtApp_words k g).1, imgOf_length_total hl k g sig hs]
+  have c0 : decide ((imgOf co c cfg sig).length ≥ Spec.MbiRom.ivtSize) = true := by
+    have h1 : 56 ≤ appLen c cfg := appLen_ge k g
+    have h2 : Spec.MbiRom.ivtSize = 56 := rfl
+    rw [imgOf_length hl k g, h2, decide_eq_true_eq]; omega
+  have c1 : (if (romEnvOf c rkth cfg.hmacKey).zeroTotalLength = true
+      then (if c.zeroTotalLength then 0 else (imgOf co c cfg sig).length) == 0
+      else (if c.zeroTotalLength then 0 else (imgOf co c cfg sig).length) == (imgOf co c cfg sig).length) = true := by
+    have : (romEnvOf c rkth cfg.hmacKey).zeroTotalLength = c.zeroTotalLength := rfl
+    rw [this]; cases c.zeroTotalLength <;> simp
+  have c2 : decide ((cfg.tz.tag == Spec.MbiRom.tzEnabled) = true ∨ (cfg.tz.tag == Spec.MbiRom.tzCustom) = true
+      ∨ (cfg.tz.tag == Spec.MbiRom.tzDisabled) = true) = true := by
+    cases cfg.tz <;> simp [TzCfg.tag, tzEnabled, tzCustom, tzDisabled, Spec.MbiRom.tzEnabled, Spec.MbiRom.tzCustom,
+      Spec.MbiRom.tzDisabled]
+  have hck : (romEnvOf c rkth cfg.hmacKey).certKind = .v1 := by simp [romEnvOf, k.hV1]
+  have hhh : (romEnvOf c rkth cfg.hmacKey).hmacHeader = c.has .Mbi_MixinHmac := rfl
+  unfold Spec.MbiRom.romCheck
+  simp only [need_ok c0, hfl, hty, htz, htot, need_ok c1, need_ok c2, bind, Except.bind, hck, hhh]
+  have hT := type_cases k hf ht
+  have e1 : (c.imageType == Spec.MbiRom.typePlain) = false := by
+    rcases hT with h | h | h <;> rw [h] <;> rfl
+  have e2 : ¬ ((c.imageType == Spec.MbiRom.typeCrcRam) = true ∨ (c.imageType == Spec.MbiRom.typeCrcXip) = true) := by
+    rcases hT with h | h | h <;> rw [h] <;> decide
+  have e3 : (c.imageType == Spec.MbiRom.typeSignedRam) = true ∨ (c.imageType == Spec.MbiRom.typeSignedXip) = true
+      ∨ (c.imageType == Spec.MbiRom.typeSignedXipNxp) = true := by
+    rcases hT with h | h | h <;> rw [h] <;> decide
+  simp only [e1, Bool.false_eq_true, if_false, if_neg e2, if_pos e3]
+  cases hH : c.has .Mbi_MixinHmac with
+  | false => simp only [Bool.false_eq_true, if_false]
+  | true => simp only [if_true, romHmac_ok hl k g sig hH rkth]
+
+end RomV1
+
 /-- the signed range is the prefix of the body that precedes the signature, nothing follows the signature, and the
     certificate block inside the signed range announces exactly that length -/
 theorem signed_range_is_prefix_signedV1 (h : Hyp co env c cfg signer) (hf : c.family = some .signedV1) :
@@ -26,7 +319,12 @@ theorem signed_range_is_prefix_signedV1 (h : Hyp co env c cfg signer) (hf : c.fa
       ∧ pre.length = (totalLenForCertBlock c cfg).toNat
       ∧ slice pre (appLen c cfg) (appLen c cfg + cfg.cert.length) = certInImage c cfg
       ∧ rd32 (certInImage c cfg) certImageLengthOffset = pre.length := by
-  sorry
+  have k := SignedV1.clsF h.hcls hf
+  have g := SignedV1.cfgF k h.hcfg
+  refine ⟨_, SignedV1.rawOf c cfg, SignedV1.export_eq signer k g, RomV1.body_eq h.hlaws k g _, RomV1.raw_length k g, ?_, ?_⟩
+  · have := RomV1.raw_cert k g []
+    rwa [List.append_nil] at this
+  · rw [RomV1.cert_il k g, RomV1.raw_length k g]
 
 /-- the HMAC block is HMAC-SHA256 of the first 64 bytes under AES-ECB(user key, ROM's derivation constant), followed by the key store -/
 theorem hmac_covers_header_signedV1 (h : Hyp co env c cfg signer) (hf : c.family = some .signedV1)
@@ -35,7 +333,12 @@ theorem hmac_covers_header_signedV1 (h : Hyp co env c cfg signer) (hf : c.family
       ∧ slice e hmacOffset (hmacOffset + hmacSize)
           = hmac co .sha256 (ecbEnc co k Spec.MbiRom.hmacKeyDerivation) (e.take hmacOffset)
       ∧ slice e (hmacOffset + hmacSize) (hmacOffset + hmacSize + (cfg.keyStore.getD []).length) = cfg.keyStore.getD [] := by
-  sorry
+  have k := SignedV1.clsF h.hcls hf
+  have g := SignedV1.cfgF k h.hcfg
+  obtain ⟨key, hk, _⟩ := RomV1.hmacKey_some g hh
+  refine ⟨_, key, SignedV1.export_eq signer k g, hk, ?_, RomV1.img_keyStore h.hlaws k g _ hh key hk⟩
+  rw [RomV1.img_mac h.hlaws k g _ hh key hk, RomV1.img_take h.hlaws k g _ hh]
+  rfl
 
 /-- the ROM accepts the exported image; what is left to the environment is the X.509 chain of the block and the RSA
     verification, by the last certificate, of the signature over the announced (= signed) prefix -/
@@ -48,6 +351,22 @@ theorem rom_accepts_signedV1 (h : Hyp co env c cfg signer) (hf : c.family = some
       ∧ a.obligations = [.x509Chain (certs.map (fun p => (appLen c cfg + p.1, p.2))) table,
                          .rsaByCert last (totalLenForCertBlock c cfg).toNat]
       ∧ a.stripped = (if c.has .Mbi_MixinHmac then hmacSize + (cfg.keyStore.getD []).length else 0) := by
-  sorry
+  have k := SignedV1.clsF h.hcls hf
+  have g := SignedV1.cfgF k h.hcfg
+  have hs := h.hsig (SignedV1.rawOf c cfg)
+  obtain ⟨a, last, h1, h2, h3, h4⟩ := RomV1.romSignedV1_ok k g (signer (SignedV1.rawOf c cfg)) hs
+    (romEnvOf c rkth cfg.hmacKey) certs table hrom
+    (if c.has .Mbi_MixinHmac then hmacSize + (cfg.keyStore.getD []).length else 0)
+  refine ⟨_, a, last, SignedV1.export_eq signer k g, ?_, h2, h3, h4⟩
+  rw [RomV1.romCheck_ok h.hlaws k g hf ht _ hs rkth]
+  cases hH : c.has .Mbi_MixinHmac with
+  | true => rw [hH] at h1; exact h1
+  | false =>
+    rw [hH] at h1
+    have hb := RomV1.body_eq h.hlaws k g (signer (SignedV1.rawOf c cfg))
+    unfold Mbi.bodyOf at hb
+    rw [hH] at hb
+    simp only [Bool.false_eq_true, if_false] at hb h1 ⊢
+    rw [hb]; exact h1
 
 end SpsdkVerif.Mbi
